@@ -119,7 +119,8 @@ PROPS["C04"] = {
 
 PROPS["C05"] = {
     "id": "C05",
-    "lean_modules": ["JT.Props.C05"],
+    "lean_modules": ["JT.Props.C05", "JT.Props.C05Src"],
+    "extractors": ["golean"],
     "functional_ops": [],
     "rule": ("transfers of 1..8 (thorough: 1..40) non-empty packets (equal/unequal lengths, escape-dense bodies, up to 1023 bytes), packet 1 first then 2..N shuffled with duplicates, interleaved with a second concurrent transfer of another id (sometimes left incomplete), "
              "unfragmented messages, packets numbered 0 / N+1 / N+2 / 65535 and packets of an id with no packet 1; delivered one packet per read into the reader's reused 1023-byte buffer, coalesced, or split into 1..40-byte reads; "
